@@ -4,6 +4,7 @@ import sys
 from functools import partial
 from hashlib import sha256
 from os.path import dirname
+from types import ModuleType
 from typing import TYPE_CHECKING
 from typing import Any
 from zipfile import Path
@@ -63,9 +64,12 @@ def _stable_name(value: Any) -> str:
     name = getattr(value, '__qualname__', None) or \
         getattr(value, '__name__', None)
     # Functions created inside other functions share one qualified
-    # name; they have no name that tells them apart.
+    # name, and so do the methods bound to different instances; they
+    # have no name that tells them apart.
+    owner = getattr(value, '__self__', None)
     if module and name and '<' not in name and \
-            getattr(value, '__closure__', None) is None:
+            getattr(value, '__closure__', None) is None and \
+            (owner is None or isinstance(owner, (type, ModuleType))):
         return "{}.{}".format(module, name)
     return repr(value)
 
